@@ -7,7 +7,8 @@ classdef('rbql_engine.RBQLRecord', fields=dict(storage=Dict[Cell, Cell], NR=Opt[
 classdef('rbql_engine.RBQLContext',
          fields=dict(input_iterator=Obj['rbql_engine.RBQLInputIterator'], writer=Obj['rbql_engine.RBQLOutputWriter'],
                      unnest_list=Opt[List[Cell]], sort_key_expression=Opt[Str], aggregation_stage=Int, top_count=Opt[Int],
-                     join_map=Opt[Obj['rbql_engine.Joiner']], user_init_code=Str))
+                     join_map=Opt[Obj['rbql_engine.Joiner']], user_init_code=Str,
+                     like_regex_cache=Dict[Str, Obj['re.Pattern']]))
 classdef('rbql_engine.Joiner')
 classdef('rbql_engine.InternalBadFieldError', fields=dict(bad_idx=Int))
 classdef('rbql_engine.InternalBadKeyError', fields=dict(bad_key=Str))
